@@ -174,8 +174,14 @@ class LazyTermMap:
             if sym in self._term_map:
                 return self._term_map[sym]
 
-        invertable_subsets = [i for i, (_, perms) in enumerate(splitted)
-                              if len(perms) > 1]
+        # the order of the permutations within a subset can only be inverted
+        # if the permutations commute, i.e., if they do not share an index.
+        # Otherwise the inverted product is the inverse permutation, which
+        # maps the terms differently.
+        invertable_subsets = [
+            i for i, (_, perms) in enumerate(splitted) if len(perms) > 1 and
+            len(set(chain.from_iterable(perms))) == 2 * len(perms)
+        ]
         for n_inverts in range(1, len(invertable_subsets)+1):
             for to_invert in combinations(invertable_subsets, n_inverts):
                 inv_perms = []
